@@ -180,6 +180,10 @@ where
                 extremities.push(1.0);
                 extremities.sort_by(|a, b| a.partial_cmp(b).unwrap_or(Ordering::Equal));
 
+                // The same extremity can be found more than once (the x and y coordinates can share one, or it can be a double root): a subsection between two of
+                // them would have no length, so no tangent or normal
+                extremities.dedup_by(|a, b| (*a - *b).abs() < 0.01);
+
                 extremities
                     .into_iter()
                     .tuple_windows()
